@@ -17,12 +17,12 @@ def model(rep, w, cfg, desc, timeout, must_complete=True, workers=None):
     return r
 
 
-def model_bounded_time(rep, w, cfg, desc, seconds):
+def model_bounded_time(rep, w, cfg, desc, seconds, module="MC_Cache.tla", heap="16g"):
     """Breadth-first exploration under a wall-clock budget; reports how far it got."""
     d = C.stage_spec(w)
     import subprocess, tempfile, time, shutil
     md = tempfile.mkdtemp(prefix="md-", dir=w)
-    cmd = ["timeout", str(seconds)] + C._tlc_cmd(heap="16g") + ["-metadir", md, "-workers", str(C.NCPU), "-config", cfg, "MC_Cache.tla"]
+    cmd = ["timeout", str(seconds)] + C._tlc_cmd(heap=heap) + ["-metadir", md, "-workers", str(C.NCPU), "-config", cfg, module]
     t0 = time.time()
     p = subprocess.run(cmd, cwd=d, stdout=subprocess.PIPE, stderr=subprocess.STDOUT, text=True)
     shutil.rmtree(md, ignore_errors=True)
@@ -33,7 +33,7 @@ def model_bounded_time(rep, w, cfg, desc, seconds):
         r.generated, r.distinct = int(ms[-1][0].replace(",", "")), int(ms[-1][1].replace(",", ""))
     rep.model("%s (%s; breadth-first under a %ds budget)" % (cfg, desc, seconds), r, exhaustive=None)
     if r.violated:
-        raise C.Inconclusive("Cache model %s violates %s\n%s" % (cfg, r.violated, p.stdout[-3000:]))
+        raise C.Inconclusive("model %s violates %s\n%s" % (cfg, r.violated, p.stdout[-3000:]))
     return r
 
 
